@@ -33,6 +33,9 @@ def plan(tier, seed):
     # priorities are numbers, not necessarily whole ones
     cfgs.append(dict(driver="B", kind="preemptive", cap=1, depth=d - 1, prios=[0.25, 0.75]))
     cfgs.append(dict(driver="B", kind="prio", cap=1, depth=d - 1, prios=[1.5, 1.25]))
+    # a second resource in the program: releasing through one resource a request that belongs to the other is harmless for both
+    for kind in ("plain", "preemptive"):
+        cfgs.append(dict(driver="B", kind=kind, cap=1, depth=d - 2, second=1))
     # four customers over three priority levels (a newcomer that outranks two waiting requests)
     cfgs.append(dict(driver="A", kind="prio", cap=1, n=4, rich=0, prios3=1))
     for kind in ("plain", "prio", "preemptive"):
@@ -117,11 +120,33 @@ def exec_puppets(ch, cfg, res):
                 seen_grant[pid] = False
             elif op == "relother":
                 r.release(myreq[(pid + 1) % NP])
+            elif op == "relx":
+                r.release(other["held"])           # the other resource's user, named in a release on this one
+            elif op == "relx2":
+                other["r2"].release(myreq[pid])    # this resource's user, named in a release on the other one
             elif op == "relq":
                 # releasing a request that (as far as its owner knows) is still waiting: releasing a non-user is harmless,
                 # the request stays queued and is granted later like any other
                 r.release(myreq[pid])
     procs.extend(env.process(puppet(p)) for p in range(NP))
+    other = {}
+    if cfg.get("second"):
+        r2 = KINDS[kind](env, 1)
+        other["r2"] = r2
+
+        def bystander():
+            with r2.request() as q:
+                other["held"] = q
+                yield q
+                yield env.event()          # keeps the slot for good
+
+        def waiter():
+            with r2.request() as w:
+                other["waiting"] = w
+                yield w
+                other["granted"] = env.now
+        env.process(bystander())
+        env.process(waiter())
     env.run(until=0.5)
     batch = []
     hist = []
@@ -155,6 +180,10 @@ def exec_puppets(ch, cfg, res):
         if op[0] == "relother":
             o = (p + 1) % NP
             return myreq[o] is not None and not outstanding[o]
+        if op[0] == "relx":
+            return bool(cfg.get("second"))
+        if op[0] == "relx2":
+            return bool(cfg.get("second")) and outstanding[p] and seen_grant[p]
 
     def compare(where):
         res.ev("C06.order")
@@ -172,6 +201,12 @@ def exec_puppets(ch, cfg, res):
             res.bad(clause, "%s:%s-differs-from-every-admissible-state" % (tag, part),
                     "%s at t=%r after %r: users %s queue %s grants %s preempts %s; admissible e.g. %r" % (where, env.now, hist, iu, iq, grants, preempts, sorted(ref.states)[:1]))
             return False
+        if cfg.get("second"):
+            res.ev("C06.harmless")
+            r2 = other["r2"]
+            if list(r2.users) != [other["held"]] or list(r2.queue) != [other["waiting"]] or "granted" in other:
+                res.bad("C06.harmless", tag + ":release-naming-another-resource's-request-changed-that-resource", "after %r: second resource has %d users, %d waiting" % (hist, len(r2.users), len(r2.queue)))
+                return False
         for (pid, isp, since, isres) in causes:
             res.ev("C06.preempt")
             g = [t for (p, t) in grants if p == pid]
@@ -180,6 +215,8 @@ def exec_puppets(ch, cfg, res):
                 return False
         return True
     menu = ops_menu(kind, cfg.get("prios", (0, 1)))
+    if cfg.get("second"):
+        menu = menu + [("relx", p) for p in range(NP)] + [("relx2", p) for p in range(NP)]
     n = 0
     res.ev("C06.noraise")
     try:
@@ -227,7 +264,7 @@ def exec_puppets(ch, cfg, res):
                 ref.release(p, now)
                 ref.noop(now)
                 res.ev("C06.harmless")
-            elif op[0] == "relother":
+            elif op[0] in ("relother", "relx", "relx2"):
                 ref.noop(now)
                 res.ev("C06.harmless")
             elif op[0] == "relq":
@@ -340,6 +377,12 @@ def exec_scripts(ch, cfg):
             res.bad("C06.preempt" if part == "preemption" else "C06.order", "%s:%s-differs-from-every-admissible-state" % (tag, part),
                     "%s at t=%r customers %r: users %s queue %s grants %s preempts %s; admissible e.g. %r" % (where, env.now, specs, iu, iq, grants, preempts, sorted(ref.states)[:1]))
             return False
+        if cfg.get("second"):
+            res.ev("C06.harmless")
+            r2 = other["r2"]
+            if list(r2.users) != [other["held"]] or list(r2.queue) != [other["waiting"]] or "granted" in other:
+                res.bad("C06.harmless", tag + ":release-naming-another-resource's-request-changed-that-resource", "after %r: second resource has %d users, %d waiting" % (hist, len(r2.users), len(r2.queue)))
+                return False
         for (pid, isp, since, isres) in causes:
             res.ev("C06.preempt")
             g = [t for (p, t) in grants if p == pid]
